@@ -3,7 +3,8 @@ CHECK = {
     "technique": "explicit-state search to fixpoint over the real ByteBuffer (fields + memory image) in lock-step with a list model",
     "rule": "explicit-state search: every operation of the alphabet applied to every reachable (size,used,offset,image) state; a case is one transition; non-trivial = everything but reset of an already empty buffer; plus the full set-up argument matrix",
     "assumptions": ["octet alphabet {00,a1,b2}; buffer sizes up to the stated bound (small-scope)",
-                    "ASan red zones around exact-size heap blocks observe out-of-bounds accesses"],
+                    "ASan red zones around exact-size heap blocks observe out-of-bounds accesses",
+                    "consume_at_most(0) on an empty buffer: the statement does not decide between failing and delivering zero octets; both are accepted, the buffer must be unchanged"],
     "harnesses": [{
         "name": "c18_bytebuffer", "src": "harness/c18_bytebuffer.c", "shape": "estate",
         "lib": ["src/byte-buffer.c"], "shards": 8, "opt": "-O2", "min_outcomes": 10,
